@@ -194,6 +194,21 @@ pub fn shapes_case() -> CaseResult {
         json!({format!("a{}", f): [{"_id": "x", format!("a{}", f): [{"_id": "y", format!("a{}", f): [{"_id": "z"}]}]}], format!("b{}", f): {"_id": "w", format!("a{}", f): []}}),
         json!({"long": "x".repeat(200_000), format!("items{}", f): [{"_id": "a", "long": "\\\"}{".repeat(20_000)}]}),
         json!({format!("many{}", f): (0..3000).map(|i| json!({"_id": format!("o{}", i), "i": i})).collect::<Vec<_>>()}),
+        // every hostile string as a KEY (root object, array element, nested plain object) and as a value
+        {
+            let mut o = Map::new();
+            for (i, k) in gen::STRS.iter().enumerate() {
+                if *k != "_id" && !k.ends_with('\u{266D}') && *k != "#" {
+                    o.insert(k.to_string(), json!(gen::STRS[(i * 7 + 3) % gen::STRS.len()]));
+                }
+            }
+            let mut root = o.clone();
+            let mut el = o.clone();
+            el.insert("_id".into(), json!("el"));
+            el.insert("plain".into(), Value::Object(o.clone()));
+            root.insert(format!("items{}", f), json!([Value::Object(el)]));
+            Value::Object(root)
+        },
     ];
     for (n, d) in shapes.iter().enumerate() {
         for caps in [(1u32, 1u32), (16, 16)] {
